@@ -100,6 +100,19 @@ func corpus() []history {
 			}
 		}
 	}
+	// outgoing legs whose transfer fails: before any coin moves (unknown channel, port) or after the
+	// escrow / burn inside the transfer module (elapsed timeout, blank receiver, closed channel). Either
+	// way the packet must be refused and nothing kept: supply, escrow, balances as before
+	for _, bad := range []string{"channel", "port", "timeout", "blank", "closed"} {
+		for _, ch := range []int{1, 2} { // over the incoming channel the change is burned, elsewhere escrowed
+			b := &legSpec{Ch: ch, Retries: 2, Bad: bad}
+			hs = append(hs,
+				history{Name: fmt.Sprintf("corpus:bad-change-%s-ch%d", bad, ch), Wired: true, Pkts: []pktSpec{exOut(b, nil)}, Ops: []op{r0}, Drain: true},
+				history{Name: fmt.Sprintf("corpus:bad-change-%s-ch%d-forward-ok", bad, ch), Wired: true, Pkts: []pktSpec{exOut(b, leg(3, 2))}, Ops: []op{r0}, Drain: true},
+				history{Name: fmt.Sprintf("corpus:bad-forward-%s-ch%d", bad, ch), Wired: true, Pkts: []pktSpec{exIn(b)}, Ops: []op{r0}, Drain: true},
+				history{Name: fmt.Sprintf("corpus:bad-forward-%s-ch%d-change-ok", bad, ch), Wired: true, Pkts: []pktSpec{exOut(leg(1, 2), b)}, Ops: []op{r0}, Drain: true})
+		}
+	}
 	// parallel and nested routes with amounts the weights do not divide: nothing may stay in the module
 	// account, in any denom, at any point of the packet's life
 	for rt := 1; rt <= 5; rt++ {
@@ -151,8 +164,8 @@ func interleavings(n, m int) [][]bool {
 
 func genLeg(r *emit.Rand, malformed bool) *legSpec {
 	l := &legSpec{Ch: r.Intn(4), Retries: emit.Pick(r, uint32(0), 1, 2, 2, 3, 3, 4, 256, 257)}
-	if malformed && r.Chance(1, 3) {
-		l.Bad = emit.Pick(r, "channel", "port", "timeout")
+	if r.Chance(1, 10) || (malformed && r.Chance(1, 3)) {
+		l.Bad = emit.Pick(r, "channel", "port", "timeout", "timeout", "blank", "blank", "closed", "closed")
 	}
 	return l
 }
